@@ -112,6 +112,9 @@ class StreamModel:
             insp = st['insp']
             name = model._region_name(interp2, insp, region)
             i = st['chunk']
+            if id(region) not in st['born'] and \
+                    id(region) not in st['static']:
+                model._note_birth(interp2, st, insp, region, name, 'region')
             born = st['born'].setdefault(id(region), i)
             # a region is "seen" by the chunk that follows its definition,
             # or by the defining chunk when it is re-presented
@@ -130,6 +133,12 @@ class StreamModel:
 
         def end_capture(interp2, args, kwargs):
             region = args[0]
+            if id(region) not in st['born'] and \
+                    id(region) not in st['static']:
+                model._note_birth(interp2, st, st['insp'], region,
+                                  model._region_name(interp2, st['insp'],
+                                                     region), 'tail')
+            st['born'].setdefault(id(region), st['chunk'])
             n = region.fields.get('length')
             src = T('tail', interp2.termify(n))
             region.fields['data'] = T('bytes', src, K(0),
@@ -141,6 +150,32 @@ class StreamModel:
         interp.stubs['EndCaptureRegion.capture'] = end_capture
         interp.decide = self._decide
         interp.world.sym_iter_max = self.sym_iter_max
+
+    def _note_birth(self, interp, st, insp, region, name, kind):
+        """Geometry of a region defined while streaming (guided mode)."""
+        info = st.setdefault('born_info', {})
+        if interp.guide is None or name is None:
+            return
+        try:
+            off = None
+            if kind == 'region':
+                off = interp.guide(interp.termify(
+                    region.fields.get('offset')))
+            floor = 0
+            regs = insp.fields.get('_capture_regions')
+            for k, r in zip(regs.keys, regs.vals):
+                if r is region or (r.cls is not None and
+                                   r.cls.is_subclass(self.end_cls)):
+                    continue
+                d = r.fields.get('data')
+                if not (isinstance(d, T) and d.op == 'bytes'):
+                    continue
+                o2 = interp.guide(interp.termify(r.fields.get('offset')))
+                n2 = len(interp.guide(d))
+                floor = max(floor, o2 + n2)
+            info[name] = (kind, off, floor)
+        except (CannotEval, Raised):
+            info[name] = (kind, None, None)
 
     def fill(self, interp, region, level):
         if level == NONE:
@@ -282,6 +317,8 @@ class StreamModel:
                 for v in regs.vals:
                     st['static'].add(id(v))
             res = {'chunks': [], 'error': None}
+            st['born_info'] = {}
+            res['born'] = st['born_info']
             holder['res'] = res
             holder['insp'] = insp
             for i in range(n):
